@@ -6,6 +6,8 @@ usage: python3-vt selftest/global_twins.py [--mode unparse|rename|both] [--props
   unparse : every TidalPy/**/*.py is re-emitted by ast.unparse (comments gone, layout, quoting, parenthesisation and line numbers all change)
   rename  : in every function of every TidalPy/**/*.py each plain local variable (assigned in the function, not a parameter, not global / nonlocal, not
             captured by a nested scope) gets the suffix `_rn`; then the file is re-emitted by ast.unparse
+  algebra : x**2 -> x*x for plain names, numeric constant moved to the right of * and +  (same real-number value; IEEE-identical except x*x)
+  branches: `if c: A else: B` -> `if not c: B else: A`
 The rewritten tree lives in a scratch `git worktree` under a mkdtemp() and is removed afterwards.  Exit 0 iff every check exits 0 on every rewritten tree.
 (.pyx sources are left alone: there is no Cython-emitting back end here; hand-written .pyx twins live in selftest/refactors/.)
 """
@@ -100,6 +102,31 @@ class Renamer(ast.NodeTransformer):
         return node
 
 
+class Algebra(ast.NodeTransformer):
+    """x**2 -> x*x for a plain name x; (numeric constant) * e -> e * (numeric constant); (numeric constant) + e -> e + (numeric constant).
+    IEEE multiplication and addition commute exactly, x*x differs from x**2 by rounding at most."""
+    @staticmethod
+    def _num(n):
+        return isinstance(n, ast.Constant) and isinstance(n.value, (int, float)) and not isinstance(n.value, bool)
+
+    def visit_BinOp(self, node):
+        self.generic_visit(node)
+        if isinstance(node.op, ast.Pow) and isinstance(node.left, ast.Name) and self._num(node.right) and node.right.value == 2 and isinstance(node.right.value, int):
+            return ast.BinOp(left=ast.Name(id=node.left.id, ctx=ast.Load()), op=ast.Mult(), right=ast.Name(id=node.left.id, ctx=ast.Load()))
+        if isinstance(node.op, (ast.Mult, ast.Add)) and self._num(node.left) and not self._num(node.right):
+            return ast.BinOp(left=node.right, op=node.op, right=node.left)
+        return node
+
+
+class Branches(ast.NodeTransformer):
+    """if c: A else: B  ->  if not c: B else: A   (B not an elif chain)"""
+    def visit_If(self, node):
+        self.generic_visit(node)
+        if node.orelse and not (len(node.orelse) == 1 and isinstance(node.orelse[0], ast.If)) and not (len(node.body) == 1 and isinstance(node.body[0], ast.If)):
+            return ast.If(test=ast.UnaryOp(op=ast.Not(), operand=node.test), body=node.orelse, orelse=node.body)
+        return node
+
+
 def rewrite(tree_dir, mode):
     n = 0
     for f in glob.glob(os.path.join(tree_dir, 'TidalPy/**/*.py'), recursive=True):
@@ -111,6 +138,10 @@ def rewrite(tree_dir, mode):
         if mode == 'rename':
             t = Renamer(local_renames(src)).visit(t)
             ast.fix_missing_locations(t)
+        elif mode == 'algebra':
+            t = Algebra().visit(t); ast.fix_missing_locations(t)
+        elif mode == 'branches':
+            t = Branches().visit(t); ast.fix_missing_locations(t)
         new = ast.unparse(t) + '\n'
         compile(new, f, 'exec')
         open(f, 'w').write(new)
@@ -158,7 +189,7 @@ def main():
     ap.add_argument('--jobs', type=int, default=8)
     a = ap.parse_args()
     bad = []
-    for mode in (('unparse', 'rename') if a.mode == 'both' else (a.mode,)):
+    for mode in (('unparse', 'rename', 'algebra', 'branches') if a.mode in ('both', 'all') else (a.mode,)):
         bad += run(mode, a.props.split(','), a.jobs)
     print('global twins:', 'all silent' if not bad else f'{len(bad)} not silent: {bad}')
     sys.exit(0 if not bad else 1)
